@@ -71,6 +71,34 @@ func FOp(op string, s Sort, args ...*Term) *Term {
 		}
 		return FConst(r.Mod(r, m), s)
 	}
+	// units and zero (sound in every commutative ring; keeps lemma instances with a zero operand usable for code
+	// that simply omits the zero term)
+	isC := func(t *Term, v int64) bool { return t.IsConst() && t.val.Cmp(big.NewInt(v)) == 0 }
+	switch op {
+	case "fadd":
+		if isC(args[0], 0) {
+			return args[1]
+		}
+		if isC(args[1], 0) {
+			return args[0]
+		}
+	case "fsub":
+		if isC(args[1], 0) {
+			return args[0]
+		}
+	case "fmul":
+		if isC(args[0], 0) || isC(args[1], 0) {
+			return FConst(big.NewInt(0), s)
+		}
+		if !powMode {
+			if isC(args[0], 1) {
+				return args[1]
+			}
+			if isC(args[1], 1) {
+				return args[0]
+			}
+		}
+	}
 	if op == "fmul" && powMode {
 		b1, e1 := asPow(args[0])
 		b2, e2 := asPow(args[1])
